@@ -160,8 +160,39 @@ def check_rq_without_transfer_syntax():
     return None
 
 
+def check_unrestricted_classification():
+    """native, exhaustive over the SOP-class tables of pynetdicom.sop_class (plus private and unknown UIDs): with
+    UNRESTRICTED_STORAGE_SERVICE a proposed context is accepted unconditionally exactly when its abstract syntax is private,
+    a storage SOP class or unknown to pynetdicom; every other known SOP class is negotiated normally (here: the acceptor
+    supports nothing, so result 3)"""
+    from pynetdicom import sop_class as S
+    from pynetdicom.presentation import negotiate_unrestricted, PresentationContext
+    groups = {n: v for n, v in vars(S).items() if n.startswith("_") and n.endswith("_CLASSES") and isinstance(v, dict)
+              and v and all(isinstance(x, str) for x in v.values())}
+    cases = [(g, name, uid, g == "_STORAGE_CLASSES") for g, d in sorted(groups.items()) for name, uid in sorted(d.items())]
+    cases += [("private", "private", "1.2.826.0.1.3680043.9.3811.1.99", True), ("unknown", "unknown public", "1.2.840.10008.5.1.4.1.1.9999.1", True)]
+    wrong = []
+    for g, name, uid, storage_like in cases:
+        c = PresentationContext()
+        c.context_id, c.abstract_syntax, c.transfer_syntax = 1, uid, ["1.2.840.10008.1.2"]
+        res, _roles = negotiate_unrestricted([c], [], {})
+        got = res[0].result
+        if (got == 0) != storage_like or (not storage_like and got != 3):
+            wrong.append({"table": g, "SOP class": name, "uid": uid, "result": got, "expected": 0 if storage_like else 3})
+    if wrong:
+        return dict(input={"UNRESTRICTED_STORAGE_SERVICE": True, "supported contexts": [], "proposed": f"one context per SOP class ({len(cases)} cases)"},
+                    observed=wrong[:6], expected="result 0 exactly for private / storage / unknown abstract syntaxes, 3 for every other known SOP class")
+    return None
+
+
 def main():
     rec = load() if len(sys.argv) > 1 and sys.argv[1] != "--all" else {"id": "all"}
+    if "unrestricted-storage-classification" in rec["id"] or rec["id"].endswith("cross-check") or rec["id"] == "all":
+        b = check_unrestricted_classification()
+        if b:
+            done(True, **b)
+        if "unrestricted-storage-classification" in rec["id"]:
+            done(False, note="every SOP class pynetdicom knows is classified as the tables say")
     if "add_transfer_syntax" in rec["id"]:
         b = check_ts_invariant()
         if b:
